@@ -332,7 +332,7 @@ Lemma find_starts_fuel_correct tail : incomplete tail -> forall rs pre fuel,
 Proof.
   intros Ht. induction rs as [|r rs IH]; intros pre fuel Hf Hfuel.
   - destruct fuel as [|[|fuel]]; try (simpl in Hfuel; lia).
-    cbn [find_starts_fuel encode_recs map concat app starts_from].
+    cbn [find_starts_fuel encode_recs map concat app starts_from]. unfold in_chunk.
     assert (len pre <=? len (pre ++ tail) = true) as -> by (apply Z.leb_le; rewrite len_app; pose proof (len_nonneg tail); lia).
     assert (find_next (pre ++ tail) (len pre) <=? len (pre ++ tail) = false) as ->.
     { apply Z.leb_gt. unfold find_next. rewrite slice_app_r by lia.
@@ -341,7 +341,7 @@ Proof.
     cbn [option_map]. rewrite len_nil, Z.add_0_r. reflexivity.
   - destruct fuel as [|fuel]; [simpl in Hfuel; lia|].
     inversion Hf as [|? ? Hr Hrs]; subst.
-    cbn [find_starts_fuel starts_from].
+    cbn [find_starts_fuel starts_from]. unfold in_chunk.
     assert (len pre <=? len (pre ++ encode_recs (r :: rs) ++ tail) = true) as ->.
     { apply Z.leb_le. rewrite len_app. pose proof (len_nonneg (encode_recs (r :: rs) ++ tail)). lia. }
     rewrite encode_recs_cons, <- app_assoc. rewrite block_size_at by assumption.
@@ -558,7 +558,7 @@ Section Chunked.
                    /\ read_chunks_fuel fuel k rest prepend = Some (map buf_of groups).
   Proof.
     induction fuel as [|f IH]; intros rest prepend rs Hf Hsz E Hs Hfuel; [lia|].
-    cbn [read_chunks_fuel].
+    cbn [read_chunks_fuel]. unfold is_finished.
     assert (len (firstn (Z.to_nat k) rest) = Z.min k (len rest)) as Hraw by (rewrite len_firstn; lia).
     destruct (Z.eqb_spec (len (firstn (Z.to_nat k) rest)) 0) as [H0|H0].
     - (* nothing left to read *)
